@@ -2,7 +2,7 @@
    out-buffer path; each container's accessors describe one logical sequence.  Axiom-free.       *)
 From Coq Require Import ZArith.
 From Tevec Require Import Base.Prelude Base.Num Model.Driver Proofs.Driver Model.Features
-     Proofs.Generic Model.Containers Proofs.Containers.
+     Proofs.Generic Model.Containers Proofs.Containers Model.PolarsOut Proofs.PolarsOut.
 
 (* ---- VecDeque (ring buffer) in any rotation: wrapped or contiguous ---------------------------- *)
 Theorem C07_ring_length : forall (A : Type) (r : ring A), ring_wf r -> length (ring_to_list r) = rlen r.
@@ -66,6 +66,110 @@ Theorem C07_out_path_custom :
     1 <= w -> rolling_custom_to w f s0 xs = rolling_custom_default w f s0 xs.
 Proof. intros. rewrite rolling_custom_to_eq, rolling_custom_default_eq by assumption. reflexivity. Qed.
 
+(* ---- a Polars array as OUTPUT container (Model/PolarsOut.v; polars.rs after the repair) ----------------
+   results stored by index go through a staging buffer that starts all-null and is collected by
+   assume_init; this is the caller-buffer path of every backend and the returned path of the Vec / ndarray
+   fast paths with O = ChunkedArray (which panicked with `unimplemented!` before the repair)              *)
+
+(* any stores, in any order, any number of times: slot by slot the staged array is `join` of the generic
+   MaybeUninit buffer of Model/Driver.v — equal to it when that is fully initialised, null (never
+   garbage) where it is not *)
+Theorem C07_polars_stage_refines :
+  forall (St X A : Type) (g : St -> X -> St * option A) (s : St) (calls : list (nat * X)) (n : nat),
+    finish_polars (pexec g s calls (pstage_uninit n))
+    = match finish (exec g s calls (repeat None n)) with
+      | Done out => Done out
+      | Uninit buf => Done (map join buf)
+      | Panicked k => Panicked k
+      end.
+Proof. exact @polars_stage_refines. Qed.
+
+Theorem C07_polars_stage_total :
+  forall (St X A : Type) (g : St -> X -> St * option A) (s : St) (calls : list (nat * X)) (n : nat),
+    exists out, finish_polars (pexec g s calls (pstage_uninit n)) = Done out /\ length out = n.
+Proof. exact @polars_stage_total. Qed.
+
+(* uset / read-back of one slot *)
+Theorem C07_polars_stage_slot :
+  forall (A : Type) (i : nat) (v : option A) (b : pstage A) (j : nat),
+    nth_error (pstage_uset i v b) j = if (j =? i) && (i <? length b) then Some v else nth_error b j.
+Proof. exact @pstage_uset_nth. Qed.
+
+(* the five index bodies, every window (0 included), every callback, every series *)
+Theorem C07_polars_out_any_window :
+  forall (T St A : Type) (w : nat) (f : St -> option T * T -> St * option A) (s0 : St) (xs : list T),
+    rolling_apply_to_polars w f s0 xs = lift_uninit (rolling_apply_to w f s0 xs).
+Proof. exact @rolling_apply_to_polars_spec. Qed.
+
+Theorem C07_polars_out_rolling_apply :
+  forall (T St A : Type) (w : nat) (f : St -> option T * T -> St * option A) (s0 : St) (xs : list T),
+    1 <= w -> rolling_apply_to_polars w f s0 xs = rolling_apply_to w f s0 xs.
+Proof. exact @rolling_apply_to_polars_eq. Qed.
+
+Theorem C07_polars_out_rolling_apply_idx :
+  forall (T St A : Type) (w : nat) (f : St -> option nat * nat * T -> St * option A) (s0 : St) (xs : list T),
+    1 <= w -> rolling_apply_idx_to_polars w f s0 xs = rolling_apply_idx_to w f s0 xs.
+Proof. exact @rolling_apply_idx_to_polars_eq. Qed.
+
+Theorem C07_polars_out_rolling_custom :
+  forall (T St A : Type) (w : nat) (f : St -> list T -> St * option A) (s0 : St) (xs : list T),
+    1 <= w -> rolling_custom_to_polars w f s0 xs = collected_polars (rolling_custom_default w f s0 xs).
+Proof. exact @rolling_custom_to_polars_eq. Qed.
+
+Theorem C07_polars_out_rolling2_apply :
+  forall (T1 T2 St A : Type) (w : nat) (f : St -> option (T1 * T2) * (T1 * T2) -> St * option A) (s0 : St)
+         (xs : list T1) (ys : list T2),
+    1 <= w -> rolling2_apply_to_polars w f s0 xs ys = rolling2_apply_to w f s0 xs ys.
+Proof. exact @rolling2_apply_to_polars_eq. Qed.
+
+Theorem C07_polars_out_rolling2_apply_idx :
+  forall (T1 T2 St A : Type) (w : nat) (f : St -> option nat * nat * (T1 * T2) -> St * option A) (s0 : St)
+         (xs : list T1) (ys : list T2),
+    1 <= w -> rolling2_apply_idx_to_polars w f s0 xs ys = rolling2_apply_idx_to w f s0 xs ys.
+Proof. exact @rolling2_apply_idx_to_polars_eq. Qed.
+
+(* every rolling feature: staged into a Polars array = either body collected into a Polars array *)
+Theorem C07_polars_out_feature :
+  forall (T St A : Type) (F : feat T St (option A)) (w : nat) (xs : list T) (body : bool),
+    1 <= w -> ts_run_polars F w xs = collected_polars (ts_run F body w xs).
+Proof. exact @ts_run_polars_eq. Qed.
+
+(* collecting into one chunk does not change the logical sequence *)
+Theorem C07_polars_collect :
+  forall (A : Type) (l : list (option A)), chunked_to_list (chunked_collect l) = l.
+Proof. exact @chunked_single. Qed.
+
+(* non-vacuity of the Polars-output theorems: a running count of valid elements with window 2 over a series
+   with a null, staged out of a two-phase body; the window-index and slice forms; a window of 0 *)
+Example C07_example_polars_out :
+  let F := {| f_init := 0; f_pre := fun s (v : option nat) => match v with Some _ => S s | None => s end;
+              f_emit := fun s => if 2 <=? s then Some s else None;
+              f_post := fun s rm => match rm with Some (Some _) => s - 1 | _ => s end |} in
+  ts_run_polars F 2 [Some 5; None; Some 7; Some 8; Some 9] = Done [None; None; None; Some 2; Some 2]
+  /\ ts_run F false 2 [Some 5; None; Some 7; Some 8; Some 9] = Done [None; None; None; Some 2; Some 2].
+Proof. split; vm_compute; reflexivity. Qed.
+
+Example C07_example_polars_out_idx_custom :
+  rolling_apply_idx_to_polars 2 (fun (s : unit) a => (s, Some (fst (fst a), snd a))) tt [10; 20; 30]
+    = Done [Some (None, 10); Some (Some 0, 20); Some (Some 1, 30)]
+  /\ rolling_custom_to_polars 2 (fun (s : unit) (l : list nat) => (s, Some l)) tt [10; 20; 30]
+    = Done [Some [10]; Some [10; 20]; Some [20; 30]]
+  /\ rolling2_apply_to_polars 2 (fun (s : unit) a => (s, Some (fst a))) tt [1; 2; 3] [4; 5; 6]
+    = Done [Some None; Some (Some (1, 4)); Some (Some (2, 5))]
+  /\ rolling2_apply_idx_to_polars 1 (fun (s : unit) a => (s, Some (snd a))) tt [1; 2] [4; 5]
+    = Done [Some (1, 4); Some (2, 5)]
+  /\ rolling_apply_to_polars 0 (fun (s : unit) (a : option nat * nat) => (s, Some (snd a))) tt [1]
+    = Panicked AssertFail.
+Proof. repeat split; vm_compute; reflexivity. Qed.
+
+(* a store sequence that leaves a slot unwritten and writes another twice: null there, last write wins *)
+Example C07_example_polars_stage :
+  finish_polars (pexec (fun (s : unit) (a : nat) => (s, Some a)) tt [(2, 7); (0, 8); (2, 9)] (pstage_uninit 3))
+    = Done [Some 8; None; Some 9]
+  /\ finish (exec (fun (s : unit) (a : nat) => (s, Some a)) tt [(2, 7); (0, 8); (2, 9)] (repeat None 3))
+    = Uninit [Some (Some 8); None; Some (Some 9)].
+Proof. split; vm_compute; reflexivity. Qed.
+
 (* non-vacuity: a wrapped ring and a reversed view *)
 Example C07_example_ring :
   let r := {| rbuf := [3; 4; 1; 2]; rhead := 2; rlen := 4 |} in
@@ -90,3 +194,14 @@ Print Assumptions C07_checked_get.
 Print Assumptions C07_out_path.
 Print Assumptions C07_total.
 Print Assumptions C07_out_path_custom.
+Print Assumptions C07_polars_stage_refines.
+Print Assumptions C07_polars_stage_total.
+Print Assumptions C07_polars_stage_slot.
+Print Assumptions C07_polars_out_any_window.
+Print Assumptions C07_polars_out_rolling_apply.
+Print Assumptions C07_polars_out_rolling_apply_idx.
+Print Assumptions C07_polars_out_rolling_custom.
+Print Assumptions C07_polars_out_rolling2_apply.
+Print Assumptions C07_polars_out_rolling2_apply_idx.
+Print Assumptions C07_polars_out_feature.
+Print Assumptions C07_polars_collect.
